@@ -19,7 +19,7 @@ import vlib
 
 META = {
     "category": "proof",
-    "text": "Rocq theorems over the reals (Properties_C11.v, 32 theorems) about a hand model (coq/C11/MathDefs.v) of the fallback "
+    "text": "Rocq theorems over the reals (Properties_C11.v, 45 theorems) about a hand model (coq/C11/MathDefs.v) of the fallback "
             "bodies in src/math.c. PROVED for all real arguments: asinh/acosh/atanh equal the ln definitions (shown to be the "
             "inverses of sinh/cosh/tanh) exactly on the middle ranges of their splits and within proved method-error bounds on "
             "the outer ranges, giving one relative bound 2^-53 over the whole domain and hence across every split point; "
@@ -36,7 +36,14 @@ META = {
             "binary64 floats, bit for bit against the C fallback build on boundary-aimed and random cases, list helpers cell "
             "by cell under ASan). PARTIAL: floating-point accuracy 'to within a small multiple of machine precision for all "
             "finite arguments, in both configurations, float and double' is not proved - tie 2 measures it on samples against "
-            "mpmath (A_HAVE=0/1 x double/float, tolerance 4 eps); theorems standing for such a clause are named *_partial.",
+            "mpmath (A_HAVE=0/1 x double/float, tolerance 4 eps); theorems standing for such a clause are named *_partial. "
+            "ROUNDING (C11_sum/dot/mean/norm2_rounding_bound*): for sum, dot and mean of every length and stride and for norm2, "
+            "the same model term with each operation followed by a rounding rnd is within an explicit bound of its exact value "
+            "(sum: ((1+eps)^(n-1)-1) sum|x_i| + (n-1) eta (1+eps)^(n-1) for a representable first cell, n roundings otherwise; "
+            "dot: ((1+eps)^n-1) sum|x_i y_i| + (2n-1) eta (1+eps)^n; norm2: 7/2 (eps+eta) sqrt(x^2+y^2) + eta), proved in the "
+            "standard rounding model |rnd x - x| <= eps|x| + eta with gradual underflow, overflow excluded; IEEE binary64 "
+            "round-to-nearest-even satisfies that model with eps=2^-53, eta=2^-1075 by Flocq (C11_binary64_satisfies_model) - "
+            "the step from the rounded-real term to the C's binary64 run, norm3/norm_ and the libm-based bodies remain unproved.",
     "note": "Trusted: Coq kernel/vm_compute with primitive floats and Interval's reflexive checker; real-number axioms listed by "
             "Print Assumptions; the 'same term, different NumOps instance' argument; the hand transcription coq/C11/MathDefs.v "
             "(validated bit for bit on the generated cases only; libm log/exp/atan/sin/cos replaced by the same fixed substitute "
